@@ -128,6 +128,31 @@ def P_dlc_server(ctx, t):
     call(ctx, t, "send", "dlc2c", lambda: c.send(b"reply"), sock=c)
 
 
+def P_dlc_poll_recv(ctx, t):
+    s = nfc.llcp.Socket(ctx.llc, nfc.llcp.DATA_LINK_CONNECTION)
+    call(ctx, t, "connect", "dlc4", lambda: s.connect(20), sock=s)
+    call(ctx, t, "poll_recv", "dlc4", lambda: s.poll("recv"), sock=s)
+    call(ctx, t, "poll_recv", "dlc4", lambda: s.poll("recv"), sock=s)
+
+
+def P_dlc_poll_acks(ctx, t):
+    s = nfc.llcp.Socket(ctx.llc, nfc.llcp.DATA_LINK_CONNECTION)
+    call(ctx, t, "connect", "dlc5", lambda: s.connect(20), sock=s)
+    call(ctx, t, "send", "dlc5", lambda: s.send(b"one"), sock=s)
+    call(ctx, t, "poll_acks", "dlc5", lambda: s.poll("acks"), sock=s)
+    call(ctx, t, "poll_acks", "dlc5", lambda: s.poll("acks"), sock=s)
+    call(ctx, t, "poll_acks", "dlc5", lambda: s.poll("acks"), sock=s)
+
+
+def P_dlc_poll_send(ctx, t):
+    s = nfc.llcp.Socket(ctx.llc, nfc.llcp.DATA_LINK_CONNECTION)
+    call(ctx, t, "connect", "dlc6", lambda: s.connect(20), sock=s)
+    for i in range(2):
+        call(ctx, t, "send", "dlc6", lambda: s.send(b"data", nfc.llcp.MSG_DONTWAIT), sock=s)
+        call(ctx, t, "poll_send", "dlc6", lambda: s.poll("send"), sock=s)
+    call(ctx, t, "poll_send", "dlc6", lambda: s.poll("send"), sock=s)
+
+
 def P_resolve(ctx, t):
     s = nfc.llcp.Socket(ctx.llc, nfc.llcp.DATA_LINK_CONNECTION)
     call(ctx, t, "resolve", "sd", lambda: s.resolve(b"urn:nfc:sn:svc"), sock=s)
@@ -193,6 +218,7 @@ def P_early_then_late(ctx, t):
 
 PROGRAMS = dict(ldl_recv=P_ldl_recv, ldl_poll=P_ldl_poll, dlc_client=P_dlc_client, dlc_client_name=P_dlc_client_name,
                 dlc_server=P_dlc_server, resolve=P_resolve, poll_send=P_poll_send,
+                dlc_poll_recv=P_dlc_poll_recv, dlc_poll_acks=P_dlc_poll_acks, dlc_poll_send=P_dlc_poll_send,
                 late_connect=P_late_connect, late_resolve=P_late_resolve, late_accept=P_late_accept,
                 late_recvfrom=P_late_recvfrom, late_bound_recvfrom=P_late_bound_recvfrom,
                 late_sendto=P_late_sendto, early_then_late=P_early_then_late)
@@ -425,10 +451,25 @@ def _is_preempt(taken, fan, i):
     return fan[i] > 1 and i < len(taken) and taken[i] != 0 and True
 
 
+def targeted(progs, cause, cut, limit):
+    """'the link terminates while another thread is about to enter / is inside a socket call': for every scheduling
+    point k of an application thread, preempt there and let the run loop run to completion first."""
+    base = S.PreemptAtChooser(10 ** 9, "run")
+    res0 = run_scenario(progs, cause, cut, base)
+    yield res0
+    pts = [k for (k, name) in base.points if name != "run" and name != "-"]
+    if len(pts) > limit:
+        step = len(pts) / float(limit)
+        pts = sorted(set(pts[int(i * step)] for i in range(limit)))
+    for k in pts:
+        yield run_scenario(progs, cause, cut, S.PreemptAtChooser(k, "run"))
+
+
 SCENARIOS_QUICK = [
     ("ldl_recv",), ("ldl_poll",), ("dlc_client",), ("dlc_server",), ("resolve",), ("dlc_client_name",),
     ("poll_send",), ("late_connect",), ("late_resolve",), ("late_accept",), ("late_recvfrom",),
     ("late_bound_recvfrom",), ("late_sendto",), ("early_then_late",),
+    ("dlc_poll_recv",), ("dlc_poll_acks",), ("dlc_poll_send",),
     ("ldl_recv", "dlc_client"), ("dlc_server", "resolve"), ("ldl_poll", "dlc_client_name"),
 ]
 
@@ -440,6 +481,9 @@ def _work(job):
         if kind == "rand":
             res = run_scenario(progs, cause, cut, S.RandomChooser(arg))
             out.append((dict(kind=kind, progs=progs, cause=cause, cut=cut, picks=res["picks"]), res))
+        elif kind == "target":
+            for res in targeted(progs, cause, cut, arg):
+                out.append((dict(kind="replay", progs=progs, cause=cause, cut=cut, picks=res["picks"]), res))
         else:
             bound, budget = arg
             for prefix, res in dfs(progs, cause, cut, bound, budget):
@@ -463,6 +507,7 @@ def run(tier, seed):
         for cause in CAUSES:
             for cut in cuts:
                 jobs.append(("dfs", progs, cause, cut, (1, 12) if quick else (2, 120)))
+                jobs.append(("target", progs, cause, cut, 30 if quick else 400))
                 for k in range(2 if quick else 12):
                     jobs.append(("rand", progs, cause, cut, seed * 7919 + k * 104729 + cut))
     n_exec = 0
